@@ -128,7 +128,8 @@ fn history_case(front: Front, reg: Reg, rng: &mut Prng, col: &mut Collector) {
     let seed = rng.next_u64();
     let start_up = *rng.pick(&[0u32, 0, 0xFFFE, 0xFFFF, 0x1_0000, 0xFFFF_FFF0, 77]);
     let start_down: Option<u32> = *rng.pick(&[None, None, Some(0), Some(0xFFFE), Some(0xFFFF), Some(0x1_0000), Some(0xFFFF_FFF0), Some(300)]);
-    let start_adr = *rng.pick(&[0u32, 0, 62, 63, 64, 94, 95, 96, 127]);
+    // (also long silences: connectivity counts at and beyond the 16-bit limit)
+    let start_adr = *rng.pick(&[0u32, 0, 62, 63, 64, 94, 95, 96, 127, 65_534, 65_535, 65_536, 70_000, 1_000_000]);
     let dr = *rng.pick(&crate::c12::uplink_drs(reg));
     let mk = |r: &mut Prng| -> Option<(Dev, Net)> {
         let opts = DevOpts { rng_seed: Some(seed), ..Default::default() };
